@@ -75,6 +75,19 @@ type ElemT struct {
 	N    int
 }
 
+// EmbInner / ElemEmb: a slice element struct that embeds another struct (exported scalar fields, then an unexported one).
+type EmbInner struct {
+	A      string
+	B      int
+	hidden int
+}
+
+// ElemEmb embeds EmbInner.
+type ElemEmb struct {
+	EmbInner
+	Z int
+}
+
 // RefElem is an array/slice element struct that holds reference content.
 type RefElem struct {
 	Tags map[string]int
@@ -527,6 +540,10 @@ func buildLeaves() []*Leaf {
 		{Name: "[]ElemT", Type: reflect.TypeOf([]ElemT{}), Caps: CapRef,
 			Gen: func(r *fw.Rand, uniq int) reflect.Value {
 				return rv([]ElemT{{When: time.Date(2001+uniq%20, 2, 3, 4, 5, 6, 0, time.UTC), N: uniq}, {N: -uniq}})
+			}},
+		{Name: "[]ElemEmb", Type: reflect.TypeOf([]ElemEmb{}), Caps: CapRef,
+			Gen: func(r *fw.Rand, uniq int) reflect.Value {
+				return rv([]ElemEmb{{EmbInner: EmbInner{A: GenString(r, uniq), B: uniq}, Z: 1}, {Z: -uniq}})
 			}},
 		{Name: "[]ElemHidden", Type: reflect.TypeOf([]ElemHidden{}), Caps: CapRef,
 			Gen: func(r *fw.Rand, uniq int) reflect.Value {
